@@ -311,7 +311,10 @@ func (dr *dirRepo) IndexInsert(desc types.Descriptor, opts ...types.IndexOpt) er
 	}
 	dr.mu.Lock()
 	defer dr.mu.Unlock()
-	_ = dr.indexLoad(false, true)
+	if err := dr.indexLoad(false, true); err != nil && gcReadFailed(err) {
+		// index.json could not be read, it must not be replaced by what happens to be in memory
+		return err
+	}
 	prev := dr.index.Copy()
 	dr.index.AddDesc(desc, opts...)
 	dr.log.Debug("index entry added", "repo", dr.name, "desc", desc)
@@ -330,7 +333,10 @@ func (dr *dirRepo) IndexRemove(desc types.Descriptor) error {
 	}
 	dr.mu.Lock()
 	defer dr.mu.Unlock()
-	_ = dr.indexLoad(false, true)
+	if err := dr.indexLoad(false, true); err != nil && gcReadFailed(err) {
+		// index.json could not be read, it must not be replaced by what happens to be in memory
+		return err
+	}
 	prev := dr.index.Copy()
 	dr.index.RmDesc(desc)
 	dr.log.Debug("index entry removed", "repo", dr.name, "desc", desc)
